@@ -101,13 +101,18 @@ func MigrateContextReference(path string, rawDates bool) string {
 }
 
 var numericLookupRegex = regexp.MustCompile(`\.\d+\w*`)
+var keywordLookupRegex = regexp.MustCompile(`\.(true|false|null)\b`)
 
 // fixes property lookups
 //
 //	.1 => ["1"]
 //	.1foo  => ["1foo"]
+//	.true  => ["true"] (as true, false and null are keywords rather than names in the new syntax)
 func fixLookups(path string) string {
-	return numericLookupRegex.ReplaceAllStringFunc(path, func(lookup string) string {
+	path = numericLookupRegex.ReplaceAllStringFunc(path, func(lookup string) string {
+		return `["` + lookup[1:] + `"]`
+	})
+	return keywordLookupRegex.ReplaceAllStringFunc(path, func(lookup string) string {
 		return `["` + lookup[1:] + `"]`
 	})
 }
